@@ -141,6 +141,9 @@ type cmdSpec struct {
 	Hidden   bool       `json:"hidden"`
 	Spec     B          `json:"spec"`
 	Policy   *int       `json:"policy"`
+	// PolicyLate: ErrorHandling is assigned after the sub-commands were declared (they copy the field when they
+	// are created, so they do not inherit it)
+	PolicyLate bool `json:"policy_late"`
 	Decls    []declSpec `json:"decls"`
 	Before   *hookSpec  `json:"before"`
 	Action   *hookSpec  `json:"action"`
@@ -952,10 +955,13 @@ func (r *runCtx) configure(cmd *cli.Cmd, c *cmdSpec, path string) {
 			}
 		}
 		cmd.Command(string(sub.Name), string(sub.Desc), func(sc *cli.Cmd) {
-			if sub.Policy != nil {
+			if sub.Policy != nil && !sub.PolicyLate {
 				sc.ErrorHandling = flag.ErrorHandling(*sub.Policy)
 			}
 			r.configure(sc, sub, subPath)
+			if sub.Policy != nil && sub.PolicyLate {
+				sc.ErrorHandling = flag.ErrorHandling(*sub.Policy)
+			}
 		})
 	}
 }
@@ -986,7 +992,7 @@ func runCase(req *request, stderr *bytes.Buffer) *runOut {
 		root := req.Root
 		rootName := string(root.Name)
 		app := cli.App(rootName, string(root.Desc))
-		if root.Policy != nil {
+		if root.Policy != nil && !root.PolicyLate {
 			app.ErrorHandling = flag.ErrorHandling(*root.Policy)
 		}
 		if req.Version != nil {
@@ -997,6 +1003,9 @@ func runCase(req *request, stderr *bytes.Buffer) *runOut {
 			}
 		}
 		r.configure(app.Cmd, root, rootName)
+		if root.Policy != nil && root.PolicyLate {
+			app.ErrorHandling = flag.ErrorHandling(*root.Policy)
+		}
 
 		argv0 := rootName
 		if req.Argv0 != nil {
